@@ -5,6 +5,8 @@ import (
 	"fmt"
 	"strings"
 	"time"
+
+	"github.com/metal-toolbox/audito-maldito/internal/simrt"
 )
 
 // C10: the output is a stream of whole JSON events in causal order. The assembled daemon
@@ -15,22 +17,67 @@ func init() {
 	register(&propDef{
 		ID: "C10", Level: "exploration",
 		Families: []family{
-			{Name: "l3-bursts", Fn: scnC10(3), Weight: 3},
-			{Name: "l2-handoff-orders", Fn: scnC10(2), Weight: 1},
+			{Name: "l3-bursts", Fn: scnC10(3), Weight: 9},
+			{Name: "l2-handoff-orders", Fn: scnC10(2), Weight: 3},
+			{Name: "l3-stalled-output", Fn: scnC10gen(3, true), Weight: 1},
 		},
 		Rule: "the daemon starts on an events output that already holds 0-3 earlier events (restart); 2-6 sessions with 0-6 actions each delivered as bursts on both pipes at once (everything within 0-300 ms of simulated time, taped chunking / short reads / buffer sizes), " +
 			"schedule policies random / PCT / biased / run-to-block with a scheduling point inside every output write and between every write and hand-off; monitor per write call: exactly one JSON event + newline, " +
 			"no event written twice, every UserAction preceded by the UserLogin with the same subjects.pid; afterwards the file content (O_APPEND / no-O_APPEND semantics of the simulated file) keeps the earlier events and consists of whole JSON lines; thorough tier additionally under the race detector; " +
+			"l3-stalled-output: one output write (taped, among the first) stalls for 1-4 simulated seconds (slow or hung disk) while a session that held 30-540 events gets its login and another session is busy; same monitors; " +
 			"non-trivial = both pipelines wrote and at least one preemption happened; distinct = distinct (history hash, schedule hash)",
 		Quick: 8000, Thorough: 250000,
 		Race: true, RaceQuick: 96, RaceThorough: 8000,
 	})
 }
 
-func scnC10(level int) scenarioFn {
+func scnC10(level int) scenarioFn { return scnC10gen(level, false) }
+
+// genStalledOutputHistory: a busy correlated session next to a session whose many records are
+// held until its login arrives; everything within a few hundred simulated milliseconds.
+func genStalledOutputHistory(t *simrt.Tape) *History {
+	k := NewKaudit()
+	w := &L1World{}
+	a := &Session{Ses: "960", PID: 6100 + t.Choose(50, "pidA"), UID: 1000, Kind: "ssh"}
+	a.Login = GenLogin(t, a.PID, 1)
+	b := &Session{Ses: "961", PID: 6200 + t.Choose(50, "pidB"), UID: 1001, Kind: "ssh"}
+	b.Login = GenLogin(t, b.PID, 2)
+	w.Sessions = []*Session{a, b}
+	ops := []HOp{{Kind: "login", S: 0}}
+	a.Events = append(a.Events, k.Login(a.Ses, a.PID, a.UID))
+	ops = append(ops, HOp{Kind: "event", S: 0, E: 0})
+	held := (1 << (5 + t.Choose(5, "held.log2"))) + t.Choose(30, "held.delta")
+	b.Events = append(b.Events, k.Login(b.Ses, b.PID, b.UID))
+	ops = append(ops, HOp{Kind: "event", S: 1, E: 0})
+	for i := 1; i < held; i++ {
+		if t.Choose(8, "a.act") == 0 {
+			a.Events = append(a.Events, GenAction(t, k, a.Ses, a.PID, a.UID))
+			ops = append(ops, HOp{Kind: "event", S: 0, E: len(a.Events) - 1})
+		}
+		b.Events = append(b.Events, k.UserMsg("USER_START", b.Ses, b.PID, b.UID, true, 0))
+		ops = append(ops, HOp{Kind: "event", S: 1, E: i})
+	}
+	ops = append(ops, HOp{Kind: "sleep", Ms: 50 + t.Choose(200, "gap")}, HOp{Kind: "login", S: 1})
+	for i, n := 0, 1+t.Choose(4, "more"); i < n; i++ {
+		a.Events = append(a.Events, GenAction(t, k, a.Ses, a.PID, a.UID))
+		ops = append(ops, HOp{Kind: "event", S: 0, E: len(a.Events) - 1})
+	}
+	return &History{W: w, Ops: ops}
+}
+
+func scnC10gen(level int, stalled bool) scenarioFn {
 	return func(rc *RunCtx) {
 		c := histCfg{MaxSessions: 5, MaxActions: 6, MaxTotalMs: 300, SplitSweep: -1, AfterEnd: true}
-		h := genHistory(rc.Spec, c)
+		var h *History
+		var stallAt int
+		var stallFor time.Duration
+		if stalled {
+			h = genStalledOutputHistory(rc.Spec)
+			stallAt = 1 + rc.Spec.Choose(6, "stall.at")
+			stallFor = time.Duration(1000+rc.Spec.Choose(3000, "stall.ms")) * time.Millisecond
+		} else {
+			h = genHistory(rc.Spec, c)
+		}
 		if err := h.W.Prepare(); err != nil {
 			rc.Abort("world: %v", err)
 			return
@@ -86,9 +133,12 @@ func scnC10(level int) scenarioFn {
 			rc.Abort("start: %v", err)
 			return
 		}
-		ok := p.Run(p.worldDone, 6*time.Second, 100*time.Millisecond, 200000)
+		if stalled && p.disk != nil {
+			p.disk.StallAt, p.disk.StallFor = stallAt, stallFor
+		}
+		ok := p.Run(p.worldDone, 6*time.Second+2*stallFor, 100*time.Millisecond, 2000000)
 		if ok && !rc.Failed() {
-			ok = p.Run(nil, rc.SimNow()+3*time.Second, 100*time.Millisecond, 200000)
+			ok = p.Run(nil, rc.SimNow()+3*time.Second, 100*time.Millisecond, 2000000)
 		}
 		rc.CaseKey(h.caseKey(), level)
 		rc.State(h.stateKey(p.Out))
